@@ -6,6 +6,7 @@ import (
 	"math"
 	"strings"
 
+	m2 "github.com/goark/go-cvss/v2/metric"
 	m3 "github.com/goark/go-cvss/v3/metric"
 	v3ver "github.com/goark/go-cvss/v3/version"
 )
@@ -149,6 +150,9 @@ func cmdTables(args []string) {
 			for c := -2; c <= 9; c++ {
 				sym := symOf(mm.Fam, mm.Idx, c)
 				rec.Add(fmt.Sprintf(`"k":"print","fam":%q,"m":%q,"c":%q,"str":%s`, mm.Fam, mm.Name, sym, jstr(asciiSafe(mm.Str(c)))), "String()")
+			if mm.Defined != nil {
+				rec.Add(fmt.Sprintf(`"k":"isdefined","fam":%q,"m":%q,"c":%q,"val":%t`, mm.Fam, mm.Name, sym, mm.Defined(c)), "IsDefined()")
+			}
 				if sym != "?" && sym[0] != '#' {
 					defd = append(defd, fmt.Sprintf(`[%q,%t]`, sym, mm.Pred(c)))
 					for _, wo := range mm.Weights(c) {
@@ -189,6 +193,10 @@ func cmdTables(args []string) {
 		}
 		rec.Add(fmt.Sprintf(`"k":"ver","pkg":"metric","s":%s,"got":%q`, jstr(asciiSafe(s)), got), "metric.GetVersion(CVSS:"+s+")")
 		rec.Add(fmt.Sprintf(`"k":"ver","pkg":"version","s":%s,"got":%q`, jstr(asciiSafe(s)), verSym(int(v3ver.Get(s)))), "version.Get("+s+")")
+	}
+	for c := -1; c <= 7; c++ {
+		rec.Add(fmt.Sprintf(`"k":"sevstr","fam":"v3","c":%d,"str":%s`, c, jstr(asciiSafe(m3.Severity(c).String()))), "v3 Severity.String")
+		rec.Add(fmt.Sprintf(`"k":"sevstr","fam":"v2","c":%d,"str":%s`, c, jstr(asciiSafe(m2.Severity(c).String()))), "v2 Severity.String")
 	}
 	for c := -1; c <= 4; c++ {
 		rec.Add(fmt.Sprintf(`"k":"verprint","pkg":"metric","c":%q,"str":%s`, verSym(c), jstr(asciiSafe(m3.Version(c).String()))), "Version.String")
